@@ -55,7 +55,7 @@ theorem run_slice (s : PS) (body after : List Char) (hs : inSlice s.st = true) (
   rw [run_body body s after hs hb, sliceOfBody_eq, ht, he]
   by_cases hbad : body.any badBody = true
   · left; simp [hbad]
-  · simp only [hbad, if_false]
+  · simp only [hbad]
     cases hopt : optInts (splitAux [] body) with
     | none => left; simp
     | some es =>
